@@ -183,9 +183,19 @@ func modelSplit(fv *FV, st *State, ins ssa.CallInstruction, v ssa.Value, callee 
 		// first piece is the prefix before the first separator
 		fv.assume(st, implies(and(sx("distinct", sep, `""`), sx("str.contains", s, sep)), and(sx(">=", n, "2"), eq(fv.read(st, f, r, "0"), sx("str.substr", s, "0", sx("str.indexof", s, sep, "0"))))))
 	}
+	// the part after the first separator
+	idx := sx("str.indexof", s, sep, "0")
+	rest := sx("str.substr", s, sx("+", idx, sx("str.len", sep)), sx("str.len", s))
+	has := and(sx("distinct", sep, `""`), sx("str.contains", s, sep))
 	if len(args) == 3 {
 		fv.assume(st, implies(sx(">", args[2], "0"), sx("<=", n, args[2])))
 		fv.assume(st, implies(eq(args[2], "0"), eq(n, "0")))
+		// SplitN(s, sep, 2): exactly [before, everything after the first separator]
+		fv.assume(st, implies(and(has, eq(args[2], "2")), and(eq(n, "2"), eq(fv.read(st, f, r, "0"), sx("str.substr", s, "0", idx)), eq(fv.read(st, f, r, "1"), rest))))
+	} else {
+		// Split: one separator -> two pieces, more separators -> at least three pieces
+		fv.assume(st, implies(and(has, not(sx("str.contains", rest, sep))), and(eq(n, "2"), eq(fv.read(st, f, r, "1"), rest))))
+		fv.assume(st, implies(and(has, sx("str.contains", rest, sep)), sx(">=", n, "3")))
 	}
 	fv.bind(st, v, res)
 	fv.used(originName(callee) + ": fresh slice; len>=1 for non-empty sep; [s] when sep absent; pieces free of sep; first piece = prefix before first sep")
